@@ -63,6 +63,7 @@ def parseMsg (kind : String) (a : List String) : Option Msg :=
   | "fund" => do pure (.fund (← n 0) (← n 1) (← z 2))
   | "seize" => do pure (.seize (← n 0))
   | "settle" => do pure (.settle (← n 0))
+  | "settle1" => do pure (.settle1 (← n 0))
   | _ => none
 
 def parseProduct (f : List String) : Option Product :=
@@ -274,9 +275,13 @@ def handle (st : St) (seq : String) (f : List String) : St × List String :=
         else (st', [])
     | _, _ => (st, [s!"BAD\t{seq}\tcannot parse msg/env"])
   | kind :: rest =>
-    if kind ≠ "vault.state" ∧ kind ≠ "vault.state.settle" ∧ kind ≠ "vault.state.bid" then (st, [s!"BAD\t{seq}\tunknown vault line"]) else
-    -- `.settle`: the state after an auction closed; `.bid`: after a partial auction fill (only bidder / auction-module coins move)
-    let isSettle := kind = "vault.state.settle" || kind = "vault.state.bid"
+    if kind ≠ "vault.state" ∧ kind ≠ "vault.state.settle" ∧ kind ≠ "vault.state.bid" ∧ kind ≠ "vault.state.settle1" then
+      (st, [s!"BAD\t{seq}\tunknown vault line"]) else
+    -- `.settle`: the state after a second-generation auction closed; `.bid`: after a partial auction fill (only bidder /
+    -- auction-module coins move); `.settle1`: after a FIRST-generation auction closed (burns the principal exactly, so the
+    -- supply monitor stays strict there)
+    let isSettle := kind = "vault.state.settle" || kind = "vault.state.bid" || kind = "vault.state.settle1"
+    let lenientSupply := kind = "vault.state.settle" || kind = "vault.state.bid"
     match parseProj rest with
     | none => (st, [s!"BAD\t{seq}\tcannot parse state"])
     | some p =>
@@ -287,7 +292,7 @@ def handle (st : St) (seq : String) (f : List String) : St × List String :=
       let perMsg := match st.prev, st.lastOk with
         | some pv, some (m, e) => msgMonitors st.cfgL pv r m e
         | _, _ => []
-      let mons := (monitors st.cfgL st.prevGaps r isSettle ++ limitMonitors st.cfgL r ++ perMsg).map fun m => s!"MON\t{seq}\t{m}\tafter [{st.lastMsg}]"
+      let mons := (monitors st.cfgL st.prevGaps r lenientSupply ++ limitMonitors st.cfgL r ++ perMsg).map fun m => s!"MON\t{seq}\t{m}\tafter [{st.lastMsg}]"
       -- resynchronise on the real state so that later divergences are independent
       let old := m0
       let resync : State := { r with bal := overlay p.bal old.bal }
